@@ -58,6 +58,32 @@ theorem dest_is_child_of_process_cwd (fs : FS) (proc envPWD : Path) (acc : Bool)
       decideDest fs (entryArgs proc envPWD [] acc ans) name = (fs, .ok (proc ++ '/' :: basename name))) :=
   dest_is_child fs (entryArgs proc envPWD [] acc ans) name ⟨hn, h1, h2⟩ rfl
 
+/-- **an existing destination is refused** (the converse half of `dest_is_child`): without
+    `--output-file`, whenever `os.path.exists(cwd/basename)` — a regular file, a directory, a special
+    node, a link that resolves — the offer is rejected and nothing is touched -/
+theorem existing_destination_refused (fs : FS) (a : Args) (name : Path) (h : CwdOK fs a) (hno : a.outputFile = [])
+    (hex : fs.pathExists (a.cwd ++ '/' :: basename name) = true) :
+    decideDest fs a name = (fs, .error .transferRejected) := by
+  rcases dest_is_child fs a name h hno with e | ⟨_, hne, _⟩
+  · exact e
+  · rw [hne] at hex; exact absurd hex (by decide)
+
+/-- … in particular a **special node** (named pipe, unix socket, device: exists, not a file, not a
+    directory) at the destination name is refused — "neither file nor directory" is not "nothing there" -/
+theorem special_destination_refused (fs : FS) (a : Args) (name : Path) (h : CwdOK fs a) (hno : a.outputFile = [])
+    (hk : fs.kind (a.cwd ++ '/' :: basename name) = some .other) :
+    decideDest fs a name = (fs, .error .transferRejected) ∧
+    fs.isFile (a.cwd ++ '/' :: basename name) = false ∧ fs.isDir (a.cwd ++ '/' :: basename name) = false :=
+  ⟨existing_destination_refused fs a name h hno (by simp [FS.pathExists, hk]),
+   by simp [FS.isFile, hk], by simp [FS.isDir, hk]⟩
+
+/-- … and so the whole offer fails (as `TransferError`) with the file system untouched -/
+theorem special_destination_offer_fails (fs : FS) (a : Args) (name : Path) (dropped : Bool) (h : CwdOK fs a)
+    (hno : a.outputFile = []) (hk : fs.kind (a.cwd ++ '/' :: basename name) = some .other) :
+    offerFile fs a name dropped = (fs, .error .transferError) := by
+  have hd := (special_destination_refused fs a name h hno hk).1
+  simp [offerFile, handleFile, hd, goErr]
+
 /-- the decided destination is again a normal absolute path (so `extract_inside` applies to it) -/
 theorem dest_is_normal (fs : FS) (a : Args) (name : Path) (h : CwdOK fs a) (hno : a.outputFile = [])
     (fs' : FS) (d : Path) (hd : decideDest fs a name = (fs', .ok d)) : Norm d := by
@@ -601,6 +627,11 @@ def linkFS : FS :=
             else if p = "/home/u/latest.log".toList then some (.link none)
             else if p = "/home/u/foo.tmp".toList then some (.link (some .file)) else none⟩
 
+/-- a working directory holding a named pipe -/
+def linkFS' : FS :=
+  ⟨fun p => if p = "/home/u".toList ∨ p = "/home".toList then some .dir
+            else if p = "/home/u/pipe".toList then some .other else none⟩
+
 /-- HEAD does not satisfy it: the user's dangling link `/home/u/latest.log -> vault/2024.log` is not
     refused … -/
 theorem existing_entry_refused_fails_on_current : ¬ existing_entry_refused := by
@@ -647,6 +678,9 @@ example : (decideDest witnessFS witnessArgs "a/..".toList).2 = .error .transferR
 example : extractGuard [] "/home/u/d".toList "a/./b".toList = .ok "/home/u/d/a/b".toList := by decide
 example : extractGuard [] "/home/u/d".toList "../d-plus/haha".toList = .error .valueError := by decide
 example : extractGuard [] "/home/u/d".toList "/home/u/d".toList = .error .valueError := by decide
+example : CwdOK linkFS' witnessArgs := ⟨⟨by decide, by decide, by decide⟩, by decide, by decide⟩
+example : linkFS'.kind (witnessArgs.cwd ++ '/' :: basename "x/pipe".toList) = some .other := by decide
+example : (decideDest linkFS' witnessArgs "x/pipe".toList).2 = .error .transferRejected := by decide
 example : zipTarget "/home/u/d".toList "/../x//y".toList = .ok "/home/u/d/x/y".toList := by decide
 
 end WV.Props.C05
